@@ -42,7 +42,13 @@ def run(ctx):
     ctx.rule("TABLE-CP-ID", "from_id(id(v)) == Some(v) for every CodePage variant, id(from_id(n)) == n for every non-zero arm of "
                             "from_id, 0 maps to the default page, and each variant carries the Windows identifier of the reference table")
     id_tab = tables.enum_table(prog, f_id, CP)
-    from_tab, _ = tables.switch_table(prog, f_from)
+    from_tab, from_discr = tables.switch_table(prog, f_from)
+    if from_tab:
+        ctx.check(from_discr == "p1", "TABLE-CP-ID", "from_id matches on the identifier itself", "", "from_id looks up %s instead of the identifier it was given: identifiers that differ "
+                  "from a known one only outside that expression are accepted, so lookup and reverse lookup are no longer inverse" % from_discr, f_from.loc(), fn=f_from.name,
+                  key="TABLE-CP-ID|discr")
+    id_discr = tables.switch_table(prog, f_id)[1]
+    ctx.check(id_discr in ("discr(*p1)", "discr(p1)"), "TABLE-CP-ID", "id matches on the variant itself", "", "id() matches on %s" % id_discr, f_id.loc(), fn=f_id.name, key="TABLE-CP-ID|id-discr")
     if not id_tab or not from_tab:
         ctx.anchor_missing("TABLE-CP-ID", "match tables of CodePage::id / from_id")
         return
@@ -125,13 +131,59 @@ def run(ctx):
     n_push = 0
     for fname in ("msi::internal::codepage::CodePage::encode", "msi::internal::codepage::ascii_encode"):
         f = prog.fn(fname)
-        for b, t in calls(prog, f, r"Vec::<T, A>::push$"):
-            a = t["args"][1]
-            if a.get("k") == "const" and "int" in a:
-                n_push += 1
-                ctx.check(a["int"] == 0x3F, "REPL", "%s pushes constant" % short(fname), "0x3F", "pushes 0x%02X, not '?'" % a["int"],
-                          f.loc(t["sp"]), fn=fname)
-    ctx.floor("REPL", "constant pushes (replacement byte)", n_push, 2)
+        for g in prog.unit(f):
+            for b, t in calls(prog, g, r"Vec::<T, A>::push$"):
+                a = t["args"][1]
+                if a.get("k") == "const" and "int" in a:
+                    n_push += 1
+                    ctx.check(a["int"] == 0x3F, "REPL", "%s pushes constant" % short(fname), "0x3F", "pushes 0x%02X, not '?'" % a["int"],
+                              g.loc(t["sp"]), fn=fname)
+            if g.kind == "Closure" and g.locals[0] == "u8":
+                # a mapping closure char -> u8: its constant results are the replacement byte
+                for bl in g.blocks:
+                    for st in bl["stmts"]:
+                        o = st["rhs"].get("ops", [{}])[0] if st["rhs"]["rv"] == "use" else {}
+                        if st["lhs"]["l"] == 0 and not st["lhs"]["p"] and o.get("k") == "const" and "int" in o:
+                            n_push += 1
+                            ctx.check(o["int"] == 0x3F, "REPL", "%s yields constant" % short(fname), "0x3F", "yields 0x%02X, not '?'" % o["int"], g.loc(st["sp"]), fn=fname)
+    ctx.floor("REPL", "constant replacement bytes", n_push, 2)
+    # ascii_encode: one output byte per CHARACTER -----------------------------------------------------------------
+    f = prog.fn("msi::internal::codepage::ascii_encode")
+    unit = prog.unit(f)
+    chars = calls(prog, f, r"<impl str>::chars$|<impl str>::char_indices$")
+    per_char = False
+    why = "ascii_encode does not iterate over the characters of its input (str::chars): one output byte per character cannot be established"
+    if chars:
+        maps = [t for b, t in calls(prog, f, r"Iterator::map$")]
+        pushes = calls(prog, f, r"Vec::<T, A>::push$")
+        loops_ = cfg.natural_loops(f)
+        if pushes and loops_:
+            pb = {b for b, t in pushes}
+            ok_all = True
+            for h, body in loops_.items():
+                # every cycle through the header passes a push, and no path inside one iteration passes two pushes
+                from .loops import cycle_without
+                if cycle_without(f, h, body, pb):
+                    ok_all = False
+                    why = "an iteration of ascii_encode's loop can complete without emitting a byte: that character is dropped from the output"
+                for p1_ in pb:
+                    succs = f.succs()
+                    seen, st_ = set(), [x for x in succs[p1_] if x in body and x != h]
+                    while st_:
+                        x = st_.pop()
+                        if x in seen or x == h:
+                            continue
+                        seen.add(x)
+                        st_.extend(y for y in succs[x] if y in body)
+                    if seen & pb:
+                        ok_all = False
+                        why = "an iteration of ascii_encode's loop can emit two bytes for one character"
+            per_char = ok_all
+        elif maps and any(g.kind == "Closure" and g.locals[0] == "u8" for g in unit):
+            per_char = True  # chars().map(char -> u8).collect(): one byte per character by construction
+        else:
+            why = "ascii_encode iterates characters but neither pushes one byte per iteration nor maps each character to one byte"
+    ctx.check(per_char, "REPL", "ascii_encode emits one byte per character", "", why, f.loc(), fn=f.name, key="REPL|ascii-per-char")
     f = prog.fn("msi::internal::codepage::CodePage::encode")
     S = Sym(prog, f)
     loops = cfg.natural_loops(f)
